@@ -731,13 +731,22 @@ func execCorr1(f []string) string {
 			return "err | err"
 		}
 		out := parSetCanon(pb) + " | "
+		if len(pb.GetSet()) != len(set) {
+			pending = append(pending, [2]string{"codec:set_entry_lost", fmt.Sprintf("ParSignedDataSetToProto of %d entries has %d entries", len(set), len(pb.GetSet()))})
+		}
 		back, err := core.ParSignedDataSetFromProto(core.DutyType(dn), pb)
 		if err != nil {
+			if len(set) > 0 {
+				pending = append(pending, [2]string{"codec:set_roundtrip_failed", "ParSignedDataSetFromProto(ToProto(set)): " + err.Error()})
+			}
 			return out + "err"
 		}
 		pb2, err := core.ParSignedDataSetToProto(back)
 		if err != nil {
 			return out + "err"
+		}
+		if parSetCanon(pb2) != parSetCanon(pb) || len(back) != len(set) {
+			pending = append(pending, [2]string{"codec:set_entry_lost", "ParSignedDataSet changed through ToProto / FromProto"})
 		}
 		return out + parSetCanon(pb2)
 	case "us":
@@ -765,13 +774,22 @@ func execCorr1(f []string) string {
 			return "err | err"
 		}
 		out := unsSetCanon(pb) + " | "
+		if len(pb.GetSet()) != len(set) {
+			pending = append(pending, [2]string{"codec:set_entry_lost", fmt.Sprintf("UnsignedDataSetToProto of %d entries has %d entries", len(set), len(pb.GetSet()))})
+		}
 		back, err := core.UnsignedDataSetFromProto(core.DutyType(dn), pb)
 		if err != nil {
+			if len(set) > 0 {
+				pending = append(pending, [2]string{"codec:set_roundtrip_failed", "UnsignedDataSetFromProto(ToProto(set)): " + err.Error()})
+			}
 			return out + "err"
 		}
 		pb2, err := core.UnsignedDataSetToProto(back)
 		if err != nil {
 			return out + "err"
+		}
+		if unsSetCanon(pb2) != unsSetCanon(pb) || len(back) != len(set) {
+			pending = append(pending, [2]string{"codec:set_entry_lost", "UnsignedDataSet changed through ToProto / FromProto"})
 		}
 		return out + unsSetCanon(pb2)
 	}
